@@ -90,7 +90,7 @@ def correspondence(ctx):
         GC.simple_layout(s, blocks, per_file=2)
         if i % 2:
             s.xorkey = GC.rb(r, 8)
-        if i % 3 == 0 and len(blocks) > 2:
+        if i % 3 == 0:
             # under --verify too: the merkle root of a block with hundreds of transactions is the same number for every size of the pool
             s.verify, s.start = True, 1
         s.meta = {"i": i, "txs": max(len(b.txs) for b in blocks)}
